@@ -57,10 +57,22 @@ def menu(b, part="all"):
     if F is not None:
         gen += [["genx", F, 0.3 * s, 1.01, -0.2 * s, 0.2 * s, 1., False, True, 0.],
                 ["genx", F, 0.3 * s, 1.04, -0.2 * s, 0.2 * s, 1., False, True, 0.]]
+    # staggered limits: this generator at B is inside its limits as long as the 1.04 generator at A controls its bus and
+    # violates the upper one only after A has been fixed at +-0.3 -> the enforcement loop needs a second round
+    # (measured q at B before / after: R3 0.60 / 6.67, M4 36.4 / 75.6, T3 -6.8 / 2.93; I2: B is in the other island)
+    stag = {"R3": (-3., 3.), "M4": (-50., 50.), "T3": (-8., 1.5), "I2": (-3., 3.)}[b]
+    gen.append(["genx", B, 0.5 * s, 1.03, stag[0], stag[1], 1., False, True, 0.])
+    # slack generators that share the node of an ext_grid (same vm): at the ext_grid's bus, at A (with the 1.01 / 2 deg
+    # ext_grid deviation) and at the bus fused with A
+    vE = float(na.base(b).ext_grid.vm_pu.iloc[0])
+    gen += [["genx", 0, 0.4 * s, vE, -50. * s, 50. * s, 1., True, True, 1.],
+            ["genx", A, 0.6 * s, 1.01, -50. * s, 50. * s, 1., True, True, 1.]]
+    if F is not None:
+        gen.append(["genx", F, 0.3 * s, 1.01, -50. * s, 50. * s, 1., True, True, 1.])
     load = [["load", A, 1.5 * s, 0.5 * s, "P", 0.5, True], ["load", A, 1.0 * s, 0.4 * s, "Z", 1., True],
             ["load", A, 1.2 * s, 0.3 * s, "I", 1., True], ["load", A, 1.0 * s, 0.5 * s, "M2", 0.5, True],
             ["load", A, 0., 0.5 * s, "M", 1., True], ["load", A, 1.0 * s, 0.2 * s, "Z", 1., False],
-            ["load", B, 0.8 * s, 0.2 * s, "M", 1., True]]
+            ["load", B, 0.8 * s, 0.2 * s, "M", 1., True], ["load", B, 0.5 * s, 0.4 * s, "M2", 1.5, True]]
     if F is not None:
         load.append(["load", F, 0.6 * s, 0.2 * s, "I", 0.5, True])
     shunt = [["shunt", A, 0.1 * s, -0.5 * s, 1, 1.0, True], ["shunt", A, 0.05 * s, 0.3 * s, 2, 0.9, True],
@@ -229,6 +241,25 @@ def judge(net, on, opts, cnt):
                      extra=["tab=shunt"])
     # ---- the same laws seen from the network: a load / shunt alone on its node receives exactly the law's power
     acc, _, _ = balance.nodal_sums(net)
+    # ---- "the gen sits exactly at that limit" seen from the network: with enforce_q_lims the node of every generator
+    # really receives the reported p/q of its generators (nodes with a voltage dependent load: recorded defect C01-zip)
+    if qlim:
+        node = balance.fused_nodes(net)
+        gnodes = {node[int(b)] for b in net.gen.bus[net.gen.in_service].values}
+        for n in sorted(gnodes):
+            a = acc.get(n)
+            if a is None or not any(a_net.energized(net, b) for b in a["buses"]):
+                continue
+            ld = net.load[net.load.in_service & net.load.bus.isin(a["buses"])]
+            if vdl and len(ld) and (ld[["const_z_p_percent", "const_i_p_percent", "const_z_q_percent", "const_i_q_percent"]].abs().sum().sum() > 0):
+                continue
+            cnt["gen_node_balance_judged"] = cnt.get("gen_node_balance_judged", 0) + 1
+            mis = a["elem"] + a["branch"]
+            scale = max(1., abs(a["elem"]), abs(a["branch"]))
+            if abs(mis.real) > 1e-5 + 1e-7 * scale or abs(mis.imag) > 1e-5 + 1e-7 * scale:
+                viol("gen_limit_network", {"node_buses": sorted(a["buses"]), "mismatch": [mis.real, mis.imag],
+                                           "gens": [[int(i), float(net.res_gen.at[i, "q_mvar"])] for i in net.gen.index[net.gen.bus.isin(a["buses"])]]},
+                     extra=["kind=" + k for k in sorted(a["kinds"])])
     for n, a in acc.items():
         if not any(a_net.energized(net, b) for b in a["buses"]):
             continue
@@ -280,12 +311,35 @@ def run_case(case):
     return out
 
 
+def optsets_for(devs):
+    """budget: every case with <=1 deviation runs under all option sets; a pair runs under "ac" and "ac_qlim" plus the option
+    sets that are about one of its deviations (angles: ext_grid / slack generator; voltage_depend_loads: ZIP load;
+    PYPOWER back-substitution and q-limit variants: generator; pandapower Newton: generator or ext_grid)"""
+    if len(devs) <= 1:
+        return OPTSETS
+    o = ["ac", "ac_qlim"]
+    eg = any(d[0] == "egx" or (d[0] == "set" and d[1] == "ext_grid") or (d[0] == "genx" and d[7]) for d in devs)
+    zl = any(d[0] == "load" and d[4] != "P" for d in devs)
+    ge = any(d[0] == "genx" for d in devs)
+    if eg:
+        o.append("ac_cvaF")
+    if zl:
+        o.append("ac_novdl")
+    if ge:
+        o.append("ac_qlim_nonumba")
+    if ge and zl:
+        o.append("ac_qlim_novdl")
+    if sum(d[0] == "genx" for d in devs) == 2 or (eg and ge):
+        o.append("ac_nols")
+    return o
+
+
 def gen_cases(tier):
     cases = []
     bases = os.environ.get("A_BASES", "").split(",") if os.environ.get("A_BASES") else BASES   # A_BASES: development only
     for b in bases:
         for devs in na.subsets(menu(b), 2):
-            cases.append({"base": b, "devs": [list(d) for d in devs], "optsets": OPTSETS})
+            cases.append({"base": b, "devs": [list(d) for d in devs], "optsets": optsets_for(devs)})
         if tier == "thorough":
             for devs in na.subsets(menu(b, "gen"), 3):
                 if len(devs) == 3:
